@@ -30,7 +30,7 @@ fn literal(v: &Value) -> Option<String> {
 /// `variant` spells the same item definitions differently: bit 0 - written top-down (every reference points forward in
 /// the document), bit 1 - the allowed values carry the expressionLanguage attribute with the FEEL URI of DMN 1.2,
 /// bit 2 - the item definitions are named like built-in types written with other capitals (Date, String, Number, ..),
-/// bit 3 - the decision logic itself carries typeRef="Any" (the declared type of a result is the output VARIABLE's),
+/// bit 3 - the decision logic itself carries typeRef="boolean" (the declared type of a result is the output VARIABLE's),
 /// bit 4 - every number among the values is written with two fraction digits (handled in run_variant).
 fn model_xml(t: &J, values: &[Value], direct: bool, variant: u64) -> (String, Vec<bool>) {
   let (mut defs, top) = crate::xml::item_definitions_xml_named(t, variant & 1 == 1, variant & 4 == 4);
@@ -56,7 +56,7 @@ fn model_xml(t: &J, values: &[Value], direct: bool, variant: u64) -> (String, Ve
     }
   }
   if variant & 8 == 8 {
-    s = s.replace("<literalExpression><text>", "<literalExpression typeRef=\"Any\"><text>");
+    s = s.replace("<literalExpression><text>", "<literalExpression typeRef=\"boolean\"><text>");
   }
   s.push_str("</definitions>");
   (s, has)
